@@ -8,7 +8,7 @@ Oracle B: clause predicates for ops in which a queued watcher with a script of i
 from hypothesis import strategies as st
 
 from vlib.core import Result
-from vlib.dispatch import NAMES, NPOOL, PNAMES, World, equal, pool_value, watcher_spec
+from vlib.dispatch import NAMES, NPOOL, PNAMES, World, equal, pool_value, val_strategy, watcher_spec
 
 ID = "C03"
 LEVEL = "exploration"
@@ -29,10 +29,8 @@ ASSUMPTIONS = [
 ]
 SIZES = {"quick": 2500, "thorough": 15000}
 
-_val = st.integers(0, NPOOL - 1)
-
-
-def _ops():
+def _ops(fam):
+    _val = val_strategy(fam)
     return st.one_of(
         st.tuples(st.just("set"), st.integers(0, 2), st.integers(0, 2), _val, st.sampled_from(["attr", "attr", "update"])),
         st.tuples(st.just("set"), st.integers(0, 2), st.integers(0, 2), _val, st.sampled_from(["attr", "attr", "update"])),
@@ -46,13 +44,36 @@ def _ops():
 
 @st.composite
 def _case(draw):
-    ws = draw(st.lists(watcher_spec(), min_size=1, max_size=6))
-    ops = draw(st.lists(_ops(), min_size=1, max_size=10))
-    return {"watchers": ws, "ops": [list(o) for o in ops]}
+    fam = draw(st.integers(0, 4))
+    ws = draw(st.lists(watcher_spec(fam=fam), min_size=1, max_size=6))
+    if draw(st.integers(0, 3)) == 0:
+        # the very same callback registered a second time with identical options
+        j = draw(st.integers(0, len(ws) - 1))
+        ws.append(dict(ws[j], dup_of=j))
+    ops = draw(st.lists(_ops(fam), min_size=1, max_size=10))
+    return {"fam": fam, "watchers": ws, "ops": [list(o) for o in ops]}
 
 
 def strategy(tier):
     return _case()
+
+
+EXHAUSTIVE_NOTE = ("change-detection table: every ordered pair (old, new) of pool values within a family (quick) / of the "
+                   "whole pool (thorough) assigned in sequence under one changes-only and one unfiltered watcher")
+
+
+def enumerate_cases(tier):
+    from vlib.dispatch import _FAM_RANGES
+    ws = [{"target": 0, "names": [0], "what": "value", "onlychanged": True, "queued": False, "precedence": 0,
+           "mode": "args", "script": []},
+          {"target": 0, "names": [0], "what": "value", "onlychanged": False, "queued": False, "precedence": 1,
+           "mode": "args", "script": []}]
+    if tier == "quick":
+        pairs = [(i, j) for lo, hi in _FAM_RANGES for i in range(lo, hi + 1) for j in range(lo, hi + 1)]
+    else:
+        pairs = [(i, j) for i in range(NPOOL) for j in range(NPOOL)]
+    for i, j in pairs:
+        yield {"fam": 0, "watchers": ws, "ops": [["set", 0, 0, i, "attr"], ["set", 0, 0, j, "attr"]]}
 
 
 class Model:
@@ -119,14 +140,15 @@ class Model:
             rec = [(n, None, new, None) for n, _o, new, _t in events]
         else:
             rec = list(events)
-        self.trace.append(("enter", w, rec, self.snapshot(t)))
+        a = sp.get("dup_of") if sp.get("dup_of") is not None else w     # a duplicate registration shares the callback
+        self.trace.append(("enter", a, rec, self.snapshot(t)))
         if sp["script"]:
             self.labels.add("cascade")
             if sp["queued"]:
                 self.queued_scripted_ran = True
         for k, (n, _v) in enumerate(sp["script"]):
-            self.assign(t, NAMES[n], self.script_vals[w][k], scripted=w)
-        self.trace.append(("exit", w))
+            self.assign(t, NAMES[n], self.script_vals[a][k], scripted=a)
+        self.trace.append(("exit", a))
 
     def trigger(self, t, names):
         # trigger re-assigns the current value: an instance that followed the class default now holds
@@ -195,6 +217,11 @@ def execute(case):
     world = World(specs)
     model = Model(specs, world.script_vals)
     rewatched = False
+    dup_related = set()
+    for w, sp in enumerate(specs):
+        if sp.get("dup_of") is not None:
+            dup_related.update((w, sp["dup_of"]))
+            res.label("duplicate_registration")
     for step, op in enumerate(case["ops"]):
         kind = op[0]
         tag = f"op{step}:{op!r}"
@@ -239,12 +266,16 @@ def execute(case):
                 res.label("trigger_run")
             elif kind == "unwatch":
                 w = op[1] % len(specs)
+                if w in dup_related:
+                    continue     # equal Watcher tuples cannot be told apart by unwatch: not exercised
                 if model.active[w]:
                     world.unregister(w)
                     model.active[w] = False
                 continue
             elif kind == "rewatch":
                 w = op[1] % len(specs)
+                if w in dup_related:
+                    continue
                 if not model.active[w]:
                     world.register(w)
                     model.active[w] = True
@@ -339,20 +370,18 @@ def _oracle_b(res, tag, world, model, real, specs):
         for w in model.watchers_for(t, n, "value"):
             if specs[w]["onlychanged"]:
                 continue
-            later = [real[j] for j in enters if j > i and real[j][1] == w and any(r[0] == n for r in real[j][2])]
-            if not later:
-                res.fail("C03.missing_delivery", f"{tag}: assignment t{t}.{n}={v!r} never reached unfiltered watcher w{w}\n"
-                                                 f"   real: {_fmt(real)}")
+            a = specs[w].get("dup_of") if specs[w].get("dup_of") is not None else w
+            later = [real[j] for j in enters if j > i and real[j][1] == a and any(r[0] == n for r in real[j][2])]
+            # coalescing may replace the delivery of this assignment by that of a later assignment to the same
+            # parameter, and a queued delivery may arrive after the value moved on: require a later delivery whose
+            # `new` is the object installed by this or a later assignment to the same parameter
+            later_vals = [e[3] for j, e in assigns if j >= i and e[1] == t and e[2] == n]
+            ok = False
+            for d in later:
+                for r in d[2]:
+                    if r[0] == n and any(r[2] is lv for lv in later_vals):
+                        ok = True
+            if not ok:
+                res.fail("C03.missing_delivery", f"{tag}: assignment t{t}.{n}={v!r} never reached unfiltered watcher w{w} "
+                                                 f"(no later delivery carrying its or a later value)\n   real: {_fmt(real)}")
                 return
-            last = [r for r in later[-1][2] if r[0] == n][0]
-            final = getattr(world.targets[t], n)
-            if last[2] is not final:
-                res.fail("C03.event_old_new", f"{tag}: last delivery of {n} to w{w} carries {last[2]!r}, final value is "
-                                              f"{final!r}\n   real: {_fmt(real)}")
-                return
-    # the set of assignments performed must be what the model performed (same callbacks ran their scripts)
-    ra = sorted((e[1], e[2], id(e[3]), -1 if e[4] is None else e[4]) for _i, e in assigns)
-    ma = sorted((e[1], e[2], id(e[3]), -1 if e[4] is None else e[4]) for e in model.trace if e[0] == "assign")
-    if ra != ma and not any(specs[e[4]]["onlychanged"] for e in model.trace if e[0] == "assign" and e[4] is not None):
-        res.fail("C03.cascade_assignments", f"{tag}: scripted assignments differ from the model\n   real : {_fmt(real)}\n"
-                                            f"   model: {_fmt(model.trace)}")
